@@ -93,9 +93,13 @@ def oracle_single(case) -> Result:
     for p in order:
         cs[(_torch_type(tname), _constraint(tname, p))] = fns[p]
     spec = _make_spec(tname, flags)
-    # sanity of the harness' own spec construction
+    # the library's own pattern constraints (plinio/cost/pattern.py) decide what the layer, built
+    # here from its flags (depthwise / 3x3 / user property), satisfies
     for p in PATS[1:]:
-        assert bool(_constraint(tname, p)(spec)) == bool(flags[p])
+        if bool(_constraint(tname, p)(spec)) != bool(flags[p]):
+            res.bad('pattern-constraint-disagrees-with-the-layer', pattern=p, layer_type=tname,
+                    layer_satisfies=bool(flags[p]))
+            return res
     exp = _reference(order, flags)
     got = _lookup(cs, tname, spec, fns)
     if got != exp:
